@@ -39,7 +39,175 @@ def val_check(kind, quick_n, thorough_n, rule):
     return run
 
 
+def impl_blocks_sorted(impl):
+    files = impl.get("ctx", {}).get("files")
+    if files is None:
+        return None
+    bl = [b for v in files.values() for b in v]
+    bl.sort(key=lambda b: (b["tag"][0], b["tag"][1]))
+    return bl
+
+
+def oracle_expected_blocks(case, impl):
+    """constructed ground truth: exactly the blocks the generator wrote inside comments, attributes as written, in source order"""
+    exp = case.get("meta", {}).get("expected")
+    if exp is None:
+        return []
+    if "panic" in impl:
+        return [f"panic: {impl['panic']}"]
+    bl = impl_blocks_sorted(impl)
+    if bl is None:
+        return [f"expected {len(exp)} blocks, implementation reports error {impl.get('ctx', {}).get('err')}"]
+    got = [K.canon(b["attrs"]) for b in bl]
+    want = [K.canon(e["attrs"]) for e in exp]
+    if got != want:
+        return [f"blocks differ from what was written in comments: want {want} got {got}"]
+    # line/column of '<' and of '>' cut out of the file must delimit the tag as written
+    text = case["files"][0]["text"]
+    probs = []
+    for b, e in zip(bl, exp):
+        cut = cut_range(text, b["tag"])
+        if ws_norm(cut) != ws_norm(e["tag"]):
+            probs.append(f"tag range {b['tag']} cuts {cut!r}, the tag written is {e['tag']!r}")
+        cb = text.encode()[b["cbytes"][0]:b["cbytes"][1]].decode(errors="replace")
+        if "<block" in cb and b["cbytes"] != [0, 0]:
+            pass  # nested blocks: content legitimately contains inner tags
+    return probs
+
+
+def ws_norm(t):
+    """multi-line tags are re-indented by the file writer: compare modulo blank runs (and `*` decoration)"""
+    import re as _re
+    return _re.sub(r"\s*\n[ \t]*(\* )?\s*", " ", t).strip()
+
+
+def file_lines(text):
+    """lines the way positions count them: split on \n only (a \r stays on its line)"""
+    return text.split("\n")
+
+
+def cut_range(text, rng):
+    """bytes from (line, col) to (line, col) inclusive, 1-based byte columns"""
+    sl, sc, el, ec = rng
+    ls = [l.encode() for l in file_lines(text)]
+    try:
+        if sl == el:
+            return ls[sl - 1][sc - 1:ec].decode()
+        parts = [ls[sl - 1][sc - 1:]] + ls[sl:el - 1] + [ls[el - 1][:ec]]
+        return b"\n".join(parts).decode()
+    except Exception as ex:  # out of range / not on a char boundary
+        return f"<bad range {rng}: {ex}>"
+
+
+KEY_CODES = {"keep-sorted", "keep-unique", "line-pattern"}
+
+
+def oracle_diag_ranges(case, impl):
+    """C10: cut the reported range out of the file: key diagnostics delimit exactly a key, tag diagnostics exactly the start tag"""
+    probs = oracle_expected_blocks(case, impl)
+    diags = impl.get("run", {}).get("diags")
+    if not diags:
+        return probs
+    text = case["files"][0]["text"]
+    exp = case.get("meta", {}).get("expected", [])
+    bl = impl_blocks_sorted(impl) or []
+    lines = [l.encode() for l in file_lines(text)]
+    for d in diags:
+        cut = cut_range(text, d["range"])
+        if d["code"] in KEY_CODES:
+            sl, sc, el, ec = d["range"]
+            if sl != el or cut == "" or cut != cut.strip() or cut.startswith("<bad"):
+                probs.append(f"{d['code']} range {d['range']} cuts {cut!r}: not a trimmed non-empty key on one line")
+                continue
+            line = lines[sl - 1]
+            left, right = line[:sc - 1].decode(errors="replace"), line[ec:].decode(errors="replace")
+            import re as _re
+            verdicts = []
+            for b in bl:
+                a = b["attrs"]
+                if not (b["cpos"][0] <= sl <= b["cpos"][2]) or d["code"] not in a:
+                    continue
+                regex_key = a.get("keep-unique") if d["code"] == "keep-unique" else a.get("keep-sorted-pattern") if d["code"] == "keep-sorted" else None
+                if not regex_key:
+                    first_line = b["cpos"][0] == sl and sc >= b["cpos"][1]
+                    why = []
+                    if right.strip("\r\n\t \u00a0\u3000") != "" and not right.lstrip().startswith(("/*", "<!--", "//", "#", "--")):
+                        why.append(f"the line continues with {right!r}")
+                    if left.strip() != "" and not first_line:
+                        why.append(f"the line starts with {left!r}")
+                    verdicts.append(why)
+                else:
+                    m = _re.search(r"\(\?P<value>(.*?)\)", regex_key)
+                    inner = m.group(1) if m else regex_key
+                    try:
+                        verdicts.append([] if _re.fullmatch(inner, cut) else [f"not a match of the value group {inner!r}"])
+                    except _re.error:
+                        verdicts.append([])
+            if not verdicts:
+                probs.append(f"{d['code']} range {d['range']} cuts {cut!r}: no block with that rule contains line {sl}")
+            elif all(verdicts):
+                probs.append(f"{d['code']} range {d['range']} cuts {cut!r}: {verdicts[0]}")
+        else:
+            if ws_norm(cut) not in [ws_norm(e["tag"]) for e in exp]:
+                probs.append(f"{d['code']} range {d['range']} cuts {cut!r}: not a start tag written by the generator")
+    return probs
+
+
+def src_check(modes, quick_n, thorough_n, rule, oracle):
+    def run(rep, tier, seed, tr):
+        n = n_for(tier, quick_n, thorough_n)
+        rep.rules.append(rule)
+        for mode in modes:
+            comp = mode if mode == "unbalanced" else f"src {mode}"
+            rows = K.run_component(rep.prop, comp, [], seed, n, tier)
+            def nontrivial(case, impl, model):
+                m = case.get("meta", {})
+                return m.get("ntags", 1) >= 2 or m.get("gen") == "unbalanced"
+            K.correspondence(rep, rows, comp, nontrivial, known=K.load_known(rep.prop), oracle=oracle)
+    return run
+
+
+def oracle_unbalanced(case, impl):
+    """C12: the run must fail and name the damaged file"""
+    bad = case["meta"]["bad"]
+    if "panic" in impl:
+        return [f"panic: {impl['panic']}"]
+    err = impl.get("ctx", {}).get("err")
+    if not err:
+        return [f"file {bad} has an unbalanced tag ({case['meta']['op']}) but the run did not fail: {K.outcome_key(impl)}"]
+    if err[0].get("file") != bad or err[0].get("kind") not in ("unclosed", "unexpected-close"):
+        return [f"error does not name the damaged file {bad}: {err[0]}"]
+    if impl.get("exit") != 1:
+        return ["exit status is not 1"]
+    return []
+
+
 CHECKS = {
+    "C03": {
+        "module": "Bw.Props.C03", "trusted_base": TB_COMMON + ["which byte ranges are comment nodes is tree-sitter's decision: the harness reads the node list from the same grammar crates; the constructed ground truth (blocks the generator wrote inside comments, decoys in strings/code) checks the whole chain on the implementation"],
+        "level_note": DEFAULT_LEVEL_NOTE + " Partial: tree-sitter grammars (which bytes are comments) are exercised against constructed ground truth, not proved.",
+        "run": src_check(["blocks"], 7800, 156000,
+                         "files of each of the 39 suffixes assembled from the language's comment forms (line/block/doc/star-decorated/Markdown link definitions/HTML comments), code lines, string-literal decoys, random Dyck nesting (depth<=3, <=4 pairs), 1-3 tags per comment, LF/CRLF, multi-byte text; non-trivial = >= 2 tags written",
+                         oracle_expected_blocks),
+    },
+    "C05": {
+        "module": "Bw.Props.C05", "trusted_base": TB_COMMON + ["Unicode alphanumeric table regenerated from the Rust std by `bwh tables` (Bw/Gen/Alnum.lean); Cfg.WF for it is decided by the kernel"],
+        "run": src_check(["tags"], 7800, 156000,
+                         "start tags printed from random attribute lists (0-6 attributes, Unicode names/values, bare/unquoted/single/double quoted, blanks and newlines around = and between attributes, duplicates), end tags with inner blanks, embedded in comment noise with look-alike families; all 39 suffixes; non-trivial = >= 2 tags written",
+                         oracle_expected_blocks),
+    },
+    "C10": {
+        "module": "Bw.Props.C10", "trusted_base": TB_COMMON,
+        "run": src_check(["diag"], 7800, 156000,
+                         "violating blocks (line-count<0 on every block, keep-unique, keep-sorted, line-pattern, regex keys) in every comment layout of every suffix; the reported range is cut out of the file bytes and compared with the key / the start tag as written; non-trivial = >= 2 tags written",
+                         oracle_diag_ranges),
+    },
+    "C12": {
+        "module": "Bw.Props.C12", "trusted_base": TB_COMMON,
+        "run": src_check(["unbalanced"], 6000, 120000,
+                         "1-3 files of mixed languages, one of them with one tag deleted or duplicated at a random position of a random nesting; scan mode and diff mode; file order shuffled; every case non-trivial",
+                         oracle_unbalanced),
+    },
     "C06": {
         "module": "Bw.Props.C06", "trusted_base": TB_COMMON + ["f64 parsing/ordering modelled as exact decimals with IEEE total order classes (agrees on <= 15 significant digits); lexicographic order = code point order (UTF-8 order preservation assumed)"],
         "run": val_check("keep-sorted", 6000, 120000,
